@@ -6,7 +6,7 @@
 (* sets of completed awaitables, 720 maximal behaviours); the generator configurations carry   *)
 (* the order in `hist` and print, when waiter returns, the schedule and the value returned.    *)
 EXTENDS LiftShapes, LiftWaiter, Json, SequencesExt, FiniteSetsExt
-CONSTANTS Menu          \* "quick" / "thorough"
+CONSTANTS Menu          \* "quick" / "thorough" / "deps"
 
 \* results: lists, None, strings and equal values for different awaitables are among them
 ValOf(i) == CASE i % 5 = 0 -> VLst(<<VInt(i)>>)
@@ -33,18 +33,35 @@ More ==
     VTup(<<VTup(<<F1, C2, T3>>), VTup(<<F4, C5, T6>>)>>),
     VLst(<<M(<< <<"a", VLst(<<F1, VTup(<<C2>>)>>)>>, <<"b", T3>> >>), VInt(0), VTup(<<F4, VLst(<<VLst(<<C5, T6>>)>>)>>)>>),
     M(<< <<"p", M(<< <<"q", M(<< <<"r", M(<< <<"s", F1>>, <<"t", C2>> >>)>>, <<"u", T3>> >>)>>, <<"v", F4>> >>)>>, <<"w", VLst(<<C5, T6>>)>> >>) }
+\* inter-dependent coroutines: every coroutine can only finish after the next (previous) coroutine -
+\* in id order, i.e. a later (earlier) sibling or cousin - has been started
+Next_(S, i) == IF \E j \in S : j > i THEN CHOOSE j \in S : j > i /\ \A k \in S : k > i => j <= k ELSE 0
+Prev_(S, i) == IF \E j \in S : j < i THEN CHOOSE j \in S : j < i /\ \A k \in S : k < i => j >= k ELSE 0
+DepNext(t) == SetDep(t, [i \in CoroIds(t) |-> Next_(CoroIds(t), i)])
+DepPrev(t) == SetDep(t, [i \in CoroIds(t) |-> Prev_(CoroIds(t), i)])
+WithDeps(S) == {DepNext(t) : t \in S} \cup {DepPrev(t) : t \in S}
+Coros ==
+  { M(<< <<"a", Aw(1, "coro")>>, <<"b", Aw(2, "coro")>>, <<"c", Aw(3, "coro")>> >>),
+    VLst(<<Aw(1, "coro"), Aw(2, "coro"), Aw(3, "coro")>>),
+    M(<< <<"a", Aw(1, "coro")>>, <<"b", VLst(<<Aw(2, "coro"), F4>>)>>, <<"c", M(<< <<"x", Aw(3, "coro")>>, <<"y", Aw(5, "coro")>> >>)>> >>),
+    VLst(<<M(<< <<"a", Aw(1, "coro")>>, <<"b", VFlt(3, 2)>> >>), M(<< <<"a", Aw(2, "coro")>>, <<"b", Aw(3, "coro")>> >>)>>),
+    M(<< <<"a", Aw(1, "coro")>>, <<"b", Aw(2, "coro")>>, <<"c", Aw(3, "coro")>>, <<"d", Aw(4, "coro")>>, <<"e", Aw(5, "coro")>>, <<"f", Aw(6, "coro")>> >>) }
 Generated(d, w, menu) == {Build(s, menu, 1, 0) : s \in Shapes(d, w)}
 SpineTrees(d) == {Build(s, "aw", 1, 0) : s \in Spine(d) \cup Chain(d)}
 
 TreeMenu == IF Menu = "quick" THEN Explicit \cup Generated(2, 2, "aw") \cup Generated(1, 3, "awmix")
-            ELSE Explicit \cup More \cup Generated(2, 2, "aw") \cup Generated(2, 2, "awmix") \cup Generated(1, 3, "aw") \cup SpineTrees(3)
+                                   \cup WithDeps(Coros \cup Generated(2, 2, "co")) \cup {DepNext(t) : t \in Explicit}
+            ELSE IF Menu = "deps" THEN WithDeps(Coros)
+            ELSE WithDeps(Explicit \cup More \cup Coros \cup Generated(2, 2, "co") \cup Generated(2, 2, "aw") \cup Generated(1, 3, "co")) \cup Explicit \cup More \cup Generated(2, 2, "aw") \cup Generated(2, 2, "awmix") \cup Generated(1, 3, "aw") \cup SpineTrees(3)
                  \cup {Build(s, "awmix", 1, 0) : s \in Spine(4) \cup Uniform(3)}                \* depth 4 / 8 leaves, 2-4 awaitables
 
 \* generator: the step by which waiter returns prints the schedule and the value returned
 ReturnGen == Return /\ PrintT(ToJson([tree |-> tree, order |-> hist, out |-> cur,
                                       \* is the call back? before each completion no, after the last one yes
                                       done |-> [k \in 1..(Len(hist) + 1) |-> k = Len(hist) + 1],
+                                      \* the coroutines that are running once waiter has been called: all of them
+                                      started |-> SetToSortSeq(CoroIds(tree), LAMBDA a, b : a < b),
                                       vals |-> [i \in 1..Cardinality(AwIds(tree)) |->
                                                   LET id == SetToSeq(AwIds(tree))[i] IN <<id, V[id]>>]]))
-NextGen == (\E i \in AwIds(tree) : CompleteH(i)) \/ ReturnGen
+NextGen == Start \/ (\E i \in AwIds(tree) : CompleteH(i)) \/ ReturnGen
 =============================================================================
